@@ -2,6 +2,7 @@ import Model.Pass.Lower
 import Proofs.Lemmas.Rewrite
 import Proofs.Lemmas.LowerStruct
 import Proofs.Lemmas.Dco
+import Proofs.Lemmas.LowerTopo
 import Mathlib.Tactic.Ring
 /-!
 # C09 — lowering / restructuring passes preserve behaviour and meet their postconditions
@@ -408,6 +409,35 @@ def exBlock : Block :=
 example : wfB bitPreB exBlock = true ∧ wfB structPreB exBlock = true := by decide
 example : (lowerBlock nandRule exBlock).nets.length = 11 ∧ (lowerBlock twoWayRule exBlock).nets.length = 6 ∧
     (lowerBlock oneBitRule exBlock).nets.length = 8 := by decide
+
+/-- **the lowered schedule is a dependency order of the lowered nets** for each of the four passes (every temporary is
+    written before it is read and exactly once; the temporaries of different gadgets are disjoint) -/
+theorem lowered_schedule_is_dependency_order (b : Block) (order : List Net)
+    (hmem : ∀ n ∈ order, n ∈ b.nets) (hold : ∀ n ∈ order, NetOld b n) (hto : Topo order order []) :
+    Topo (lowerOrder nandRule b order) (lowerOrder nandRule b order) [] ∧
+    Topo (lowerOrder aigRule b order) (lowerOrder aigRule b order) [] ∧
+    Topo (lowerOrder twoWayRule b order) (lowerOrder twoWayRule b order) [] ∧
+    Topo (lowerOrder oneBitRule b order) (lowerOrder oneBitRule b order) [] :=
+  ⟨lowerOrder_topo _ nand_shape b order hmem hold hto, lowerOrder_topo _ aig_shape b order hmem hold hto,
+   lowerOrder_topo _ twoWay_shape b order hmem hold hto, lowerOrder_topo _ oneBit_shape b order hmem hold hto⟩
+
+/-- **under any dependency order** `order'` of the lowered nets (whatever order a simulator of the lowered block
+    picks) and any dependency order `order` of the original nets: the four passes preserve every run -/
+theorem net_transform_passes_run_eq_any_order (b : Block) (order order' : List Net)
+    (hord : ∀ n ∈ order, n ∈ b.nets) (hto : Topo order order []) (hto' : Topo order' order' [])
+    (st : State) (inps : List Env) :
+    (wfB bitPreB b = true → (∀ n, n ∈ order' ↔ n ∈ lowerOrder nandRule b order) →
+      AgreeRuns b.wires.size (run (lowerBlock nandRule b) order' st inps) (run b order st inps)) ∧
+    (wfB bitPreB b = true → (∀ n, n ∈ order' ↔ n ∈ lowerOrder aigRule b order) →
+      AgreeRuns b.wires.size (run (lowerBlock aigRule b) order' st inps) (run b order st inps)) ∧
+    (wfB structPreB b = true → (∀ n, n ∈ order' ↔ n ∈ lowerOrder twoWayRule b order) →
+      AgreeRuns b.wires.size (run (lowerBlock twoWayRule b) order' st inps) (run b order st inps)) ∧
+    (wfB structPreB b = true → (∀ n, n ∈ order' ↔ n ∈ lowerOrder oneBitRule b order) →
+      AgreeRuns b.wires.size (run (lowerBlock oneBitRule b) order' st inps) (run b order st inps)) :=
+  ⟨fun hwf hp => lower_run_preserves_any_order _ _ nand_sound nand_shape b (wfB_bit b hwf) order hord hto order' hp hto' st inps,
+   fun hwf hp => lower_run_preserves_any_order _ _ aig_sound aig_shape b (wfB_bit b hwf) order hord hto order' hp hto' st inps,
+   fun hwf hp => lower_run_preserves_any_order _ _ twoWay_sound twoWay_shape b (wfB_struct b hwf) order hord hto order' hp hto' st inps,
+   fun hwf hp => lower_run_preserves_any_order _ _ oneBit_sound oneBit_shape b (wfB_struct b hwf) order hord hto order' hp hto' st inps⟩
 
 /-! ### `direct_connect_outputs` on whole netlists, for every run
 
